@@ -34,10 +34,11 @@ type Prog struct {
 	// ModFuncs are all functions with a body whose source is in the module
 	// (declared functions, methods and function literals; generic bodies, not
 	// instantiations).
-	ModFuncs []*ssa.Function
-	cgCHA    *callgraph.Graph
-	cgVTA    *callgraph.Graph
-	GOARCH   string
+	ModFuncs  []*ssa.Function
+	callSites map[*ssa.Function][]ssa.CallInstruction
+	cgCHA     *callgraph.Graph
+	cgVTA     *callgraph.Graph
+	GOARCH    string
 }
 
 // Load type-checks /repo (./...) and builds SSA for the whole program.
